@@ -1160,20 +1160,32 @@ LB_changed(LB* self, PyObject* ignored)
 static PyObject*
 _subcache(PyObject* cache, PyObject* key)
 {
+    /* Returns a NEW reference. Hashing or comparing ``key`` may run Python
+       code that calls ``changed()`` and drops ``cache`` (which the caller
+       only borrows from ``self``): keep it alive until we are done, and
+       hand out a reference of our own to what we found in it. */
     PyObject* subcache;
 
+    Py_INCREF(cache);
     subcache = PyDict_GetItem(cache, key);
     if (subcache == NULL) {
         int status;
 
         subcache = PyDict_New();
-        if (subcache == NULL)
+        if (subcache == NULL) {
+            Py_DECREF(cache);
             return NULL;
+        }
         status = PyDict_SetItem(cache, key, subcache);
-        Py_DECREF(subcache);
-        if (status < 0)
+        if (status < 0) {
+            Py_DECREF(subcache);
+            Py_DECREF(cache);
             return NULL;
+        }
+    } else {
+        Py_INCREF(subcache);
     }
+    Py_DECREF(cache);
 
     return subcache;
 }
@@ -1185,12 +1197,16 @@ _getcache(LB* self, PyObject* provided, PyObject* name)
 
     ASSURE_DICT(self->_cache);
 
+    /* a new reference, see _subcache */
     cache = _subcache(self->_cache, provided);
     if (cache == NULL)
         return NULL;
 
-    if (name != NULL && PyObject_IsTrue(name))
-        cache = _subcache(cache, name);
+    if (name != NULL && PyObject_IsTrue(name)) {
+        PyObject* subcache = _subcache(cache, name);
+        Py_DECREF(cache);
+        cache = subcache;
+    }
 
     return cache;
 }
@@ -1242,11 +1258,10 @@ _lookup(LB* self,
         Py_DECREF(required);
         return NULL;
     }
-    /* The cache is only borrowed from ``self``; anything that runs Python
+    /* ``cache`` is a reference of our own: anything that runs Python
        code below (hashing a key, the uncached lookup itself) may call
-       ``changed()`` and drop it, so keep it alive until we are done. A
-       result stored after that lands in the detached dict. */
-    Py_INCREF(cache);
+       ``changed()`` and drop the caches of ``self``. A result stored after
+       that lands in the detached dict. */
 
     if (PyTuple_GET_SIZE(required) == 1)
         key = PyTuple_GET_ITEM(required, 0);
@@ -1335,8 +1350,8 @@ _lookup1(LB* self,
     if (cache == NULL)
         return NULL;
 
-    /* See _lookup: hashing ``required`` may run Python code. */
-    Py_INCREF(cache);
+    /* See _lookup: hashing ``required`` may run Python code; ``cache`` is
+       our own reference. */
     result = PyDict_GetItem(cache, required);
     Py_XINCREF(result);
     Py_DECREF(cache);
@@ -1521,8 +1536,7 @@ _lookupAll(LB* self, PyObject* required, PyObject* provided)
         Py_DECREF(required);
         return NULL;
     }
-    /* Keep the (borrowed) cache alive across the calls below. See _lookup. */
-    Py_INCREF(cache);
+    /* ``cache`` is our own reference across the calls below. See _lookup. */
 
     result = PyDict_GetItem(cache, required);
     if (result == NULL) {
@@ -1596,8 +1610,7 @@ _subscriptions(LB* self, PyObject* required, PyObject* provided)
         Py_DECREF(required);
         return NULL;
     }
-    /* Keep the (borrowed) cache alive across the calls below. See _lookup. */
-    Py_INCREF(cache);
+    /* ``cache`` is our own reference across the calls below. See _lookup. */
 
     result = PyDict_GetItem(cache, required);
     if (result == NULL) {
